@@ -33,6 +33,8 @@ func MintCRL(number int64, nextUpdate time.Time, padBytes int) *x509.RevocationL
 	tmpl := &x509.RevocationList{Number: big.NewInt(number), ThisUpdate: time.Now().Add(-20 * 365 * 24 * time.Hour), NextUpdate: nextUpdate}
 	if nextUpdate.IsZero() {
 		tmpl.ThisUpdate = time.Time{} // (crypto/x509 leaves the optional nextUpdate out only if thisUpdate is not after it)
+	} else if nextUpdate.Before(tmpl.ThisUpdate) {
+		tmpl.ThisUpdate = nextUpdate.Add(-time.Hour) // next-update instants centuries ago (GeneralizedTime carries years 0001-9999)
 	}
 	n := padBytes / 37
 	for i := 0; i < n; i++ {
